@@ -166,12 +166,13 @@ package tls
 // component (about 320) for id.Seed / id.Weights only.
 //
 // How it is proved.  In front of the last Shuffle the list is described slot by slot: fin_slots (finOK: what an
-// element of each type looks like), fin_sc (element 4 is THE supported_groups extension, its list is curveIDs and
-// curvesGood), fin_w / fin_t (positions of the witnesses: ALPN at 5, padding at 5 or 6, key_share and
+// element of each type looks like), fin_sc (element 4 is THE supported_groups extension and its list is curveIDs;
+// curvesGood is stated once for that object, s9), fin_w / fin_t (positions of the witnesses: ALPN at 5, padding at 5 or 6, key_share and
 // supported_versions among the last four).  The establishment obligations Shuffle.inv_*.established#0 follow from
-// these by instantiation.  The slot facts themselves are carried along the appends by the anchors s13/b13/w13 (in
-// front of the extended_master_secret coin), s14/b14/w14 (TLS 1.3 block), k_pre/k_good (key shares: groups listed,
-// hybrid share iff listed) and sv_good.  Shapes that matter for the solvers (found the hard way):
+// these by instantiation.  The slot facts themselves are carried along the appends by the anchors s9, s13/b13/w13 (in
+// front of the extended_master_secret coin), s14/b14/w14 (TLS 1.3 block), k_pre/k_hybrid/k_good (key shares: the
+// hybrid share is the first share and is there iff the hybrid group is the first listed group -- a ground fact, so a
+// violation shows up as a counter-model; then: all groups listed) and sv_good.  Shapes that matter for the solvers (found the hard way):
 //   * all facts about the supported_groups list go through the object at p.Extensions[4] (val(e) == val(x[4])), not
 //     through the local curveIDs: the two access paths give differently shaped index terms (ix(off, c) versus c for
 //     a slice with the literal offset 0) and e-matching does not connect them;
@@ -251,29 +252,31 @@ package tls
 //@   use FlipWeightedCoin: never
 //@   use Intn: range
 //@   ensures err_client: old(id.Client) != "Randomized-ALPN" && old(id.Client) != "Randomized-NoALPN" && old(id.Client) != "Randomized" ==> ret1 != nil
-//@   ensures keyshare_listed: ret1 == nil ==> ksListed(ret0.Extensions)
-//@   ensures pq_has_share: ret1 == nil ==> pqShare(ret0.Extensions) && pqTLS13(ret0.Extensions, ret0.TLSVersMax) && ksPresent(ret0.Extensions, ret0.TLSVersMax)
-//@   ensures alps_needs_alpn: ret1 == nil ==> alpsAlpn(ret0.Extensions)
-//@   ensures tls13_padding: ret1 == nil ==> padPresent(ret0.Extensions, ret0.TLSVersMax)
-//@   ensures tls13_versions: ret1 == nil ==> svPresent(ret0.Extensions, ret0.TLSVersMax) && svMatch(ret0.Extensions, ret0.TLSVersMin, ret0.TLSVersMax)
-//@   ensures tls13_norc4: ret1 == nil ==> norc4If13(ret0.CipherSuites, ret0.TLSVersMax)
-//@   ensures tls13_only: ret1 == nil ==> tls13Only(ret0.Extensions, ret0.TLSVersMax)
 //@   ensures versions: ret1 == nil ==> (ret0.TLSVersMax == VersionTLS13 && (ret0.TLSVersMin == VersionTLS10 || ret0.TLSVersMin == VersionTLS12)) || (ret0.TLSVersMax == VersionTLS12 && ret0.TLSVersMin == VersionTLS10)
-//@   ensures alpn_nonempty: ret1 == nil ==> alpnNonEmpty(ret0.Extensions)
 //@   ensures w0_tls13: old(id.Weights) != nil && old(id.Weights.TLSVersMax_Set_VersionTLS13) <= 0.0 && ret1 == nil ==> ret0.TLSVersMax == VersionTLS12 && ret0.TLSVersMin == VersionTLS10
+//@   ensures tls13_norc4: ret1 == nil ==> norc4If13(ret0.CipherSuites, ret0.TLSVersMax)
+//@   ensures tls13_padding: ret1 == nil ==> padPresent(ret0.Extensions, ret0.TLSVersMax)
+//@   ensures alps_needs_alpn: ret1 == nil ==> alpsAlpn(ret0.Extensions)
+//@   ensures alpn_nonempty: ret1 == nil ==> alpnNonEmpty(ret0.Extensions)
+//@   ensures tls13_only: ret1 == nil ==> tls13Only(ret0.Extensions, ret0.TLSVersMax)
+//@   ensures tls13_versions: ret1 == nil ==> svPresent(ret0.Extensions, ret0.TLSVersMax) && svMatch(ret0.Extensions, ret0.TLSVersMin, ret0.TLSVersMax)
+//@   ensures pq_has_share: ret1 == nil ==> pqShare(ret0.Extensions) && pqTLS13(ret0.Extensions, ret0.TLSVersMax) && ksPresent(ret0.Extensions, ret0.TLSVersMax)
+//@   ensures keyshare_listed: ret1 == nil ==> ksListed(ret0.Extensions)
 //@   at after call removeRandomCiphers#0: assert n0: norc4If13(res, p.TLSVersMax)
 //@   at before call Shuffle#1: assert tls13_pss: p.TLSVersMax == VersionTLS13 ==> exists k in 0..len(sigAndHashAlgos): sigAndHashAlgos[k] == PSSWithSHA256
 //@   at before call FlipWeightedCoin#9: assert n3: norc4If13(p.CipherSuites, p.TLSVersMax)
 //@   at before call FlipWeightedCoin#9: assert c_good: curvesGood(curveIDs, p.TLSVersMax)
+//@   at before call FlipWeightedCoin#9: assert s9: scGood(p.Extensions, curveIDs, p.TLSVersMax)
 //@   at before call FlipWeightedCoin#13: assert s13: scAt(p.Extensions, curveIDs)
 //@   at before call FlipWeightedCoin#13: assert b13: baseOK(p.Extensions)
 //@   at before call FlipWeightedCoin#13: assert w13: witAlpn(p.Extensions, WithALPN) && witPad(p.Extensions, WithALPN, p.TLSVersMax)
-//@   at before call FlipWeightedCoin#14: assert s14: scGood(p.Extensions, curveIDs, p.TLSVersMax)
+//@   at before call FlipWeightedCoin#14: assert s14: scAt(p.Extensions, curveIDs)
 //@   at before call FlipWeightedCoin#14: assert b14: baseOK(p.Extensions)
 //@   at before call FlipWeightedCoin#14: assert w14: witAlpn(p.Extensions, WithALPN) && witPad(p.Extensions, WithALPN, p.TLSVersMax)
+//@   at before call makeSupportedVersions#0: assert k_hybrid: len(ks.KeyShares) <= 3 && (ks.KeyShares[0].Group == X25519MLKEM768 <==> curveIDs[0] == X25519MLKEM768) && (len(ks.KeyShares) > 1 ==> ks.KeyShares[1].Group != X25519MLKEM768) && (len(ks.KeyShares) > 2 ==> ks.KeyShares[2].Group != X25519MLKEM768)
 //@   at before call makeSupportedVersions#0: assert k_good: ksGood(ks.KeyShares, scOf(p.Extensions[4]))
 //@   at after call makeSupportedVersions#0: assert sv_good: svGood(res, p.TLSVersMin, p.TLSVersMax)
-//@   at before call Shuffle#2: assert fin_sc: scGood(p.Extensions, curveIDs, p.TLSVersMax)
+//@   at before call Shuffle#2: assert fin_sc: scAt(p.Extensions, curveIDs)
 //@   at before call Shuffle#2: assert fin_w: witAlpn(p.Extensions, WithALPN) && witPad(p.Extensions, WithALPN, p.TLSVersMax)
 //@   at before call Shuffle#2: assert fin_t: witTail(p.Extensions, p.TLSVersMax)
 //@   at before call Shuffle#2: assert fin_slots: finOK(p.Extensions, WithALPN, p.TLSVersMin, p.TLSVersMax)
@@ -314,24 +317,24 @@ package tls
 //@   property C09 C02
 //@   requires cell: p != nil
 //@   requires 0 <= i && i < len(p.Extensions) && 0 <= j && j < len(p.Extensions)
-//@   requires inv_keyshare_listed: ksListed(p.Extensions)
-//@   requires inv_pq_has_share: pqShare(p.Extensions) && pqTLS13(p.Extensions, p.TLSVersMax) && ksPresent(p.Extensions, p.TLSVersMax)
-//@   requires inv_alps_needs_alpn: alpsAlpn(p.Extensions)
 //@   requires inv_tls13_padding: padPresent(p.Extensions, p.TLSVersMax)
-//@   requires inv_tls13_versions: svPresent(p.Extensions, p.TLSVersMax) && svMatch(p.Extensions, p.TLSVersMin, p.TLSVersMax)
+//@   requires inv_alps_needs_alpn: alpsAlpn(p.Extensions)
 //@   requires inv_alpn_nonempty: alpnNonEmpty(p.Extensions)
 //@   requires inv_tls13_only: tls13Only(p.Extensions, p.TLSVersMax)
+//@   requires inv_tls13_versions: svPresent(p.Extensions, p.TLSVersMax) && svMatch(p.Extensions, p.TLSVersMin, p.TLSVersMax)
+//@   requires inv_pq_has_share: pqShare(p.Extensions) && pqTLS13(p.Extensions, p.TLSVersMax) && ksPresent(p.Extensions, p.TLSVersMax)
+//@   requires inv_keyshare_listed: ksListed(p.Extensions)
 //@   modifies p.Extensions[0..len(p.Extensions)]
 //@   ensures swap: p.Extensions[i] == old(p.Extensions[j]) && p.Extensions[j] == old(p.Extensions[i])
 //@   ensures others: forall k in 0..len(p.Extensions): k != i && k != j ==> p.Extensions[k] == old(p.Extensions[k])
 //@   ensures header: p.Extensions == old(p.Extensions)
-//@   ensures inv_keyshare_listed: ksListed(p.Extensions)
-//@   ensures inv_pq_has_share: pqShare(p.Extensions) && pqTLS13(p.Extensions, p.TLSVersMax) && ksPresent(p.Extensions, p.TLSVersMax)
-//@   ensures inv_alps_needs_alpn: alpsAlpn(p.Extensions)
 //@   ensures inv_tls13_padding: padPresent(p.Extensions, p.TLSVersMax)
-//@   ensures inv_tls13_versions: svPresent(p.Extensions, p.TLSVersMax) && svMatch(p.Extensions, p.TLSVersMin, p.TLSVersMax)
+//@   ensures inv_alps_needs_alpn: alpsAlpn(p.Extensions)
 //@   ensures inv_alpn_nonempty: alpnNonEmpty(p.Extensions)
 //@   ensures inv_tls13_only: tls13Only(p.Extensions, p.TLSVersMax)
+//@   ensures inv_tls13_versions: svPresent(p.Extensions, p.TLSVersMax) && svMatch(p.Extensions, p.TLSVersMin, p.TLSVersMax)
+//@   ensures inv_pq_has_share: pqShare(p.Extensions) && pqTLS13(p.Extensions, p.TLSVersMax) && ksPresent(p.Extensions, p.TLSVersMax)
+//@   ensures inv_keyshare_listed: ksListed(p.Extensions)
 
 // ---------------------------------------------------------------------------------------------
 // C03 (shuffle part): ShuffleChromeTLSExtensions.
